@@ -199,6 +199,14 @@ CHECKS = [
              "previous generator object current with its previous state, and draws inside a context are bit-identical to a fresh "
              "generator with the context's seed.",
      "design_ref": "DESIGN.md 4/C21"},
+    {"property_id": "C36", "engine": "A", "category": "other", "technique": TECH_A + "; every `entry == 0` test of the classic code is a path decision; the JAX diagnostic is traced (jaxpr) and interpreted over z3 reals (engine B)",
+     "note": NOTE_A + " Bounds: 1-2 samples (3 thorough), 1-2 entries per key. NaN entries, the std columns and the formatted table are outside the claim.",
+     "text": "Bounded symbolic verification: nifty.cl.extra.minisanity on symbolic SampleLists and Gaussian likelihoods (single / multi "
+             "domain, named or not): on every path (= combination of vanishing entries) reduced chi^2 and mean equal the sample-averaged "
+             "mean of squared / plain normalised residuals over the used entries for ALL values, #dof / #ignored are the counts, the "
+             "normalised residual is N^(-1/2)(model(s) - d).  nifty.re reduced_residual_stats (smap/lmap/vmap, real and complex): "
+             "the same formulas with #used = size (2 size for complex), hence agreement of both diagnostics on the same residual values.",
+     "design_ref": "DESIGN.md 4/C36"},
 ]
 
 ALL = [f"C{i:02d}" for i in range(1, 37)]
